@@ -43,9 +43,12 @@ def r1(ctx):
         a = unwrap(ev.args[1])
         if a.get('k') == 'addr' and unwrap(a['e']).get('k') == 'var':
             reads[unwrap(a['e'])['n']] = ev
-    for need in ('word_size', 'write_pt', 'read_pt', 'version', 'hash'):
-        if need not in reads:
-            raise AnalysisBroken('qb_rb_create_from_file: header field %s is not read into a local' % need)
+    # the five header words, identified by the order in which they are read (R5 ties that order to the writer's)
+    ROLES = ('word_size', 'write_pt', 'read_pt', 'version', 'hash')
+    rd_order = sorted(reads.items(), key=lambda kv: sum(1 for o in reads.values() if f.ev_dominates(o, kv[1])))
+    if len(rd_order) < 5:
+        raise AnalysisBroken('qb_rb_create_from_file: only %d header words are read into locals' % len(rd_order))
+    L = {role: name for role, (name, _ev) in zip(ROLES, rd_order)}
     # each header read is followed by a length check before the value is used
     for name, rd in reads.items():
         nv = None
@@ -69,21 +72,25 @@ def r1(ctx):
         v = estr(st.rhs)
 
         def inrange(a, fb, v=v):
-            return a.ls == v and a.op == '<' and a.rs == 'word_size'
+            return a.ls == v and a.op == '<' and a.rs == L['word_size']
         ctx.check('R1', 'index-below-word_size:%s' % v, f.uncut_path(st, inrange) is None and f.uncut_path(op, inrange) is None, st,
                   '%s is compared with word_size before it is installed' % v,
                   '%s from the file is installed without being compared with word_size (it indexes the mapping in words)' % v)
 
     def ws_vs_file(a, fb):
-        return a.ls == 'word_size' and a.op == '<=' and any(n.get('k') == 'mem' and n['f'] == 'st_size' for n in walk(a.r))
+        return a.ls == L['word_size'] and a.op == '<=' and any(n.get('k') == 'mem' and n['f'] == 'st_size' for n in walk(a.r))
     ctx.check('R1', 'word_size-below-file-size', f.uncut_path(op, ws_vs_file) is None, op, 'word_size is compared with the file size before the ring is created',
               'word_size from the file is not compared with the file size before the ring is created')
 
+    # the recomputed hash: a local assigned from a sum that mentions the three index words
+    calc = {estr(st.lhs) for st in f.events('STORE') if unwrap(st.lhs).get('k') == 'var' and st.rhs is not None and
+            {L['word_size'], L['write_pt'], L['read_pt']} <= {n['n'] for n in walk(st.rhs) if n.get('k') == 'var'}}
+
     def hash_ok(a, fb):
-        return a.op == '==' and {a.ls, a.rs} == {'hash', 'calculated_hash'}
+        return a.op == '==' and ((a.ls == L['hash'] and a.rs in calc) or (a.rs == L['hash'] and a.ls in calc))
 
     def version_ok(a, fb):
-        return a.ls == 'version' and a.op == '==' and a.rc is not None
+        return a.ls == L['version'] and a.op == '==' and a.rc is not None
     ctx.check('R1', 'hash-compared', f.uncut_path(op, hash_ok) is None, op, 'the header hash is compared before the ring is created', 'the ring is created without the header hash having been compared')
     ctx.check('R1', 'version-compared', f.uncut_path(op, version_ok) is None, op, 'the header version is compared before the ring is created', 'the header version is not checked')
     # the data read is exactly what the header announced and is checked
@@ -160,13 +167,17 @@ def r2(ctx):
     if reads < 5:
         raise AnalysisBroken('print_from_file: only %d reads through the record cursor were recognised' % reads)
     # the function name is a terminated string inside the record before it is printed
-    pr = [ev for ev in f.calls('printf') if any(estr(a) == 'function' for a in ev.args)]
+    def name_ptr(a):
+        u = unwrap(a)
+        return u.get('k') == 'var' and u.get('sc') == 'l' and u.get('ty', '').replace('const ', '') == 'char *'
+    pr = [ev for ev in f.calls('printf') if any(name_ptr(a) for a in ev.args)]
     if not pr:
         raise AnalysisBroken('print_from_file: record print not found')
+    fnvar = [unwrap(a)['n'] for a in pr[0].args if name_ptr(a)][0]      # the function name inside the record
 
     def terminated(a, fb):
         l = unwrap(a.l)
-        return a.op == '==' and a.rc == 0 and l.get('k') == 'idx' and estr(l['b']) == 'function'
+        return a.op == '==' and a.rc == 0 and l.get('k') == 'idx' and estr(l['b']) == fnvar
     ctx.check('R2', 'function-name-terminated', f.uncut_path(pr[0], terminated) is None, pr[0], 'the function name is printed only after its last byte inside the record was seen to be NUL',
               'the function name is printed as a string without a terminator check (read past the record)')
     ds = list(f.calls('qb_vsnprintf_deserialize'))
@@ -174,8 +185,11 @@ def r2(ctx):
     def has_nul(a, fb):
         return a.op == '!=' and a.rc == 0 and callee_of(unwrap(a.l)) == 'memchr'
 
+    mc = list(f.calls('memchr'))
+    mlen = estr(mc[0].args[2]) if mc else None      # the message length taken from the record
+
     def msg_inside(a, fb):
-        return a.ls == 'msg_len' and a.op == '<=' and ('bytes_read' in a.rs or nbytes in a.rs)
+        return mlen is not None and a.ls == mlen and a.op == '<=' and nbytes in a.rs
     for dcall in ds:
         ctx.check('R2', 'message-terminated-inside-record', f.uncut_path(dcall, has_nul) is None, dcall, 'the message is decoded only after a NUL was found within msg_len bytes',
                   'the encoded message is decoded without a terminator inside the record (the decoder runs off the buffer)')
@@ -310,11 +324,39 @@ def r5(ctx):
             cs = {cval(s) for s in srcs}
             sz = cs.pop() if len(cs) == 1 else None
         rorder.append(((last_field(a) or (None, estr(a)))[1], sz))
-    ctx.check('R5', 'ring-header:field-order-and-sizes', [x for x in worder[:5]] == [x for x in rorder[:5]] and len(worder) == 6 and len(rorder) == 6, w,
-              'writer and reader use the same five 4-byte header fields in the same order: %s' % [x[0] for x in worder[:5]],
-              'dump header layouts differ: writer %s, reader %s' % (worder, rorder))
-    hw = [st for st in w.events('STORE') if estr(st.lhs) == 'hash' and st.d['op'] == '=' and cval(unwrap(st.rhs)) is None]
-    hr = [st for st in r.events('STORE') if estr(st.lhs) == 'calculated_hash' and cval(unwrap(st.rhs)) is None]
+    # the writer's first three words are ring header fields (named by the field), the last two are a version constant and the
+    # hash; the reader reads all five into locals.  What must agree is the sizes in order, and - because R1 assigns the
+    # reader's locals their roles by read order - that the writer's field order is word_size, write_pt, read_pt.
+    wf = [x[0] for x in worder[:3]]
+    ok = [x[1] for x in worder[:5]] == [x[1] for x in rorder[:5]] == [4] * 5 and len(worder) == 6 and len(rorder) == 6 and \
+        wf == ['word_size', 'write_pt', 'read_pt'] and worder[5][0] == rorder[5][0] == 'shared_data'
+    # the reader installs each local into the field of its role
+    inst = {}
+    for st in r.events('STORE'):
+        lf = last_field(st.lhs)
+        if lf and lf[0] == 'qb_ringbuffer_shared_s' and lf[1] in ('read_pt', 'write_pt') and unwrap(st.rhs).get('k') == 'var':
+            inst[lf[1]] = unwrap(st.rhs)['n']
+    rnames = [x[0] for x in rorder[:5]]
+    ok = ok and inst.get('write_pt') == rnames[1] and inst.get('read_pt') == rnames[2]
+    ctx.check('R5', 'ring-header:field-order-and-sizes', ok, w,
+              'writer and reader use five 4-byte header words in the order word_size, write_pt, read_pt, version, hash; the reader installs the 2nd into write_pt and the 3rd into read_pt',
+              'dump header layouts differ: writer %s, reader %s (installs %s)' % (worder, rorder, inst))
+    def is_sum(e, n=3):
+        u = unwrap(e)
+        k = 0
+        while u.get('k') == 'bin' and u['op'] == '+':
+            k += 1
+            u = unwrap(u['l'])
+        return k >= n
+    # role of the reader's locals = order in which they are read
+    rlocals = []
+    for ev in sorted(r.calls('read'), key=lambda e: sum(1 for o in r.calls('read') if r.ev_dominates(o, e))):
+        a = unwrap(ev.args[1])
+        if a.get('k') == 'addr' and unwrap(a['e']).get('k') == 'var':
+            rlocals.append(unwrap(a['e'])['n'])
+    role = dict(zip(rlocals, ('word_size', 'write_pt', 'read_pt', 'version', 'hash')))
+    hw = [st for st in w.events('STORE') if unwrap(st.lhs).get('k') == 'var' and st.d['op'] == '=' and is_sum(st.rhs)]
+    hr = [st for st in r.events('STORE') if unwrap(st.lhs).get('k') == 'var' and st.d['op'] == '=' and is_sum(st.rhs)]
     def terms(e):
         out = []
         def rec(x):
@@ -324,7 +366,7 @@ def r5(ctx):
                 rec(x['r'])
             else:
                 lf = last_field(x)
-                out.append(lf[1] if lf else ('version' if (cval(x) is not None or estr(x) == 'version') else estr(x)))
+                out.append(lf[1] if lf else ('version' if cval(x) is not None else role.get(estr(x), estr(x))))
         rec(e)
         return sorted(out)
     ok = len(hw) == 1 and len(hr) == 1 and terms(hw[0].rhs) == terms(hr[0].rhs)
@@ -333,12 +375,14 @@ def r5(ctx):
     v = prog.fn('_blackbox_vlogger')
     wseq = []
     for ev in sorted(v.calls('memcpy'), key=lambda e: sum(1 for o in v.calls('memcpy') if v.ev_dominates(o, e))):
-        if root_var(ev.args[0]) is not None and root_var(ev.args[0])['n'] in ('chunk', 'msg_len_pt'):
+        rv = root_var(ev.args[0])
+        if rv is not None and rv.get('sc') == 'l' and rv.get('ty') == 'char *' and unwrap(ev.args[0]).get('k') != 'addr':      # the record cursor(s)
             wseq.append(cval(unwrap(ev.args[2])) if cval(unwrap(ev.args[2])) is not None else estr(ev.args[2]))
     p = prog.fn('qb_log_blackbox_print_from_file')
     rseq = []
     for ev in sorted(p.calls('memcpy'), key=lambda e: sum(1 for o in p.calls('memcpy') if p.ev_dominates(o, e))):
-        if root_var(ev.args[1]) is not None and root_var(ev.args[1])['n'] == 'ptr':
+        rv = root_var(ev.args[1])
+        if rv is not None and rv.get('sc') == 'l' and rv.get('ty') == 'char *' and unwrap(ev.args[1]).get('k') != 'addr':      # the record cursor
             rseq.append(cval(unwrap(ev.args[2])) if cval(unwrap(ev.args[2])) is not None else estr(ev.args[2]))
     # writer: 4 4 1 4 fn 16 ; the message length word is written last (into the reserved slot); reader: 4 4 1 4 | 16 or 8 | 4
     wfixed = [x for x in wseq if isinstance(x, int)]
